@@ -5,6 +5,7 @@ CONSTANTS
   OpPairs <- MCPairs
   OpLists <- MCLists
   Depth = 4
+  WithInsL = FALSE
   Emit = FALSE
   FixedRemove = FALSE
 INVARIANTS AlgoIsSpec
